@@ -191,11 +191,20 @@ def schedSteps (s : Sched) (es : List LEv) : Sched :=
 def wakeReader (s : Sched) : Sched :=
   match s.r with
   | .fresh =>
-    if (coreOf s).sockClosed then
+    if (coreOf s).sockClosed && (coreOf s).reader = .reading then
       let s1 := schedSteps s [.rdExit, .dLoad]
       { s1 with r := .at "disc.load", woken := true }
     else s
   | _ => s
+
+/-- the closer's steps from the gate it stands at to the next one. -/
+def closerNext (g : String) : List LEv × String :=
+  if g == "close.cas" then ([.cHubDel], "close.hubdel")
+  else if g == "close.hubdel" then ([.cNotify], "close.ctxwait")
+  else if g == "close.ctxwait" then ([.cCallWait], "close.callwait")
+  else if g == "close.callwait" then ([.cStore], "close.sock")
+  else if g == "close.sock" then ([.cSock], "close.hook")
+  else ([.cHook], "end")
 
 /-- token `c`: the closer thread runs to its next gate. -/
 def schedC (s : Sched) : Sched × String :=
@@ -206,13 +215,7 @@ def schedC (s : Sched) : Sched × String :=
     if (coreOf s1).closer = .idle then ({ s1 with c := .ended }, "end")
     else ({ s1 with c := .at "close.cas" }, "close.cas")
   | .at g =>
-    let (es, nx) : List LEv × String :=
-      if g == "close.cas" then ([.cHubDel], "close.hubdel")
-      else if g == "close.hubdel" then ([.cNotify], "close.ctxwait")
-      else if g == "close.ctxwait" then ([.cCallWait], "close.callwait")
-      else if g == "close.callwait" then ([.cStore], "close.sock")
-      else if g == "close.sock" then ([.cSock], "close.hook")
-      else ([.cHook], "end")
+    let (es, nx) := closerNext g
     let s1 := schedSteps s es
     (wakeReader { s1 with c := if nx == "end" then .ended else .at nx }, nx)
 
@@ -286,9 +289,111 @@ def sched (f : Fields) : String :=
     let c := coreOf s2
     s!"{joinWith "," toks}|{joinWith "," s2.trace}|st={c.st.code} n={c.notifyCnt} d={c.discCnt} left={if c.left then 1 else 0} {showHub s2.w 1}"
 
+/-! ## inbound frames while `Close()` / `readDisconnected` stands at a gate
+
+`c07win park=<gate> hold=<none|msg|add> frames=<q|w>*`: one established connection. With `hold`, the
+first frame is sent before anything else and the reader is parked with it at `read.msg` (frame
+returned by `ReadMessage`, post-read status test pending) or at `read.add` (test passed, `Add(1)`
+pending). Then `Close()` runs to the gate `park` (`none`: no `Close()`; `end`: it returns) — or, for a
+`disc.*` gate, the connection is cut and the reader runs to that gate of `readDisconnected`. Then the
+held reader is released and the remaining frames (CALL `q` / PUSH `w`) are sent one at a time by the
+remote end, each followed by a wait until the reader blocks in `ReadMessage` again or has left the
+loop. Then `Close()` is released to its end, then the reader's disconnect path. Observed: the status at
+every handler dispatch, whether the reader is still in the loop after the frames, the status / notify /
+hook events and the final state. -/
+
+structure Win where
+  s : Sched
+  hs : List Nat      -- status code at each handler dispatch (`read.add` passed, `Add(1)`)
+
+/-- the reader leaves the loop by itself — the socket was closed under it, or a status test sent it
+    to `readDisconnected` — and parks behind the status load (`disc.load`). -/
+def winSettle (x : Win) : Win :=
+  let c := coreOf x.s
+  match x.s.r with
+  | .fresh =>
+    if c.reader = .reading && c.sockClosed then
+      { x with s := { schedSteps x.s [.rdExit, .dLoad] with r := .at "disc.load" } }
+    else if c.reader = .disc0 then
+      { x with s := { schedSteps x.s [.dLoad] with r := .at "disc.load" } }
+    else x
+  | _ => x
+
+/-- the reader goes on from where it stands in the loop until it blocks in `ReadMessage` or leaves. -/
+def winReader (x : Win) : Win :=
+  let s1 := if (coreOf x.s).reader = .got then schedSteps x.s [.rdChk] else x.s
+  let (s2, hs) := if (coreOf s1).reader = .add then (schedSteps s1 [.rdAdd], x.hs ++ [(coreOf s1).st.code]) else (s1, x.hs)
+  let s3 := if (coreOf s2).reader = .loop then schedSteps s2 [.rdTop] else s2
+  winSettle ⟨s3, hs⟩
+
+/-- the remote end sends one frame: it is read only by a reader blocked in `ReadMessage` on an open socket. -/
+def winFrame (x : Win) : Win :=
+  let c := coreOf x.s
+  if c.reader = .reading && !c.sockClosed then winReader { x with s := schedSteps x.s [.rdMsg] } else x
+
+/-- `Close()` runs to its next gate. -/
+def winCStep (x : Win) : Win :=
+  match x.s.c with
+  | .ended => x
+  | .fresh =>
+    let s1 := schedSteps x.s [.closeCall]
+    if (coreOf s1).closer = .idle then { x with s := { s1 with c := .ended } }
+    else { x with s := { s1 with c := .at "close.cas" } }
+  | .at g =>
+    let (es, nx) := closerNext g
+    let s1 := schedSteps x.s es
+    { x with s := { s1 with c := if nx == "end" then .ended else .at nx } }
+
+def winCloseTo : Nat → String → Win → Win
+  | 0, _, x => x
+  | n + 1, park, x =>
+    let here := match x.s.c with
+      | .at g => g
+      | .ended => "end"
+      | .fresh => "none"
+    if here == park then x else winCloseTo n park (winCStep x)
+
+/-- the reader's disconnect path runs to the gate `park` (the first step cuts the connection). -/
+def winDiscTo : Nat → String → Win → Win
+  | 0, _, x => x
+  | n + 1, park, x =>
+    let here := match x.s.r with
+      | .at g => g
+      | .ended => "end"
+      | .fresh => "none"
+    if here == park then x else winDiscTo n park { x with s := (schedR x.s).1 }
+
+def win (f : Fields) : String :=
+  match f.get "park", f.get "hold", f.get "frames" with
+  | some park, some hold, some frames =>
+    let frames := if frames == "-" then [] else frames.toList
+    let w0 := (World.empty.opServe 0 1 0 .serve none false).opServe 1 0 0 .serve none false
+    let x0 : Win := ⟨⟨w0, .fresh, .fresh, false, []⟩, []⟩
+    -- the held frame
+    let (x1, rest) : Win × List Char :=
+      match hold, frames with
+      | "msg", _ :: r => ({ x0 with s := schedSteps x0.s [.rdMsg] }, r)
+      | "add", _ :: r => ({ x0 with s := schedSteps x0.s [.rdMsg, .rdChk] }, r)
+      | _, fr => (x0, fr)
+    -- the close path / the disconnect path to its gate
+    let x2 := if park == "none" then x1
+      else if park.startsWith "disc." then winDiscTo 8 park x1
+      else winSettle (winCloseTo 8 park x1)
+    -- the held reader goes on, then the remaining frames
+    let x3 := winReader x2
+    let x4 := rest.foldl (fun x _ => winFrame x) x3
+    let rd := if (coreOf x4.s).reader = .reading then "read" else "disc"
+    -- the rest: `Close()` to its end, then the reader
+    let x5 := if x4.s.c = .fresh then x4 else winSettle (winCloseTo 8 "end" x4)
+    let s6 := finishR 8 x5.s
+    let c := coreOf s6
+    let hs := if x5.hs.isEmpty then "-" else joinWith "." (x5.hs.map toString)
+    s!"h={hs} rd={rd}|{joinWith "," s6.trace}|st={c.st.code} n={c.notifyCnt} d={c.discCnt} left={if c.left then 1 else 0} {showHub s6.w 1}"
+  | _, _, _ => "bad-case"
+
 end D07
 
 def handlersC07 : List (String × (Fields → String)) :=
-  [("c07hist", D07.hist), ("c07sched", D07.sched)]
+  [("c07hist", D07.hist), ("c07sched", D07.sched), ("c07win", D07.win)]
 
 end Teleport.Drv
